@@ -1720,8 +1720,8 @@ pub fn vec_eq_family() -> Vec<Prog> {
 /// enum classes, methods with their own type parameters, tail-recursive methods; and bounded generic
 /// functions, methods and classes instantiated with *instantiated generic classes*.
 pub fn method_value_family() -> Vec<Prog> {
-  let prelude = "interface Show { method show(): Str }\nclass Box<T>(val v: T) : Show {\n  method get(): T = this.v\n  method show(): Str = \"box\"\n  method <R> pair(r: R): Pair2<T, R> = Pair2.init(this.v, r)\n  method count(i: int, acc: int): int = if i <= 0 { acc } else { this.count(i - 1, acc + 1) }\n  method <A> fold(start: A, f: (A, T) -> A): A = f(start, this.v)\n}\nclass Cap {\n  function <A> sameName(b: Box<A>, f: (A) -> int): int = b.fold(0, (acc, v) -> acc + f(v))\n  function <Z> otherName(b: Box<Z>, f: (Z) -> int): int = b.fold(0, (acc, v) -> acc + f(v))\n}\nclass CapBox<A>(val inner: Box<A>) {\n  method viaClassParameter(f: (A) -> int): int = this.inner.fold(100, (acc, v) -> acc + f(v))\n}\nclass Pair2<A, B>(val a: A, val b: B) : Show {\n  method show(): Str = \"pair\"\n  method first(): A = this.a\n}\nclass Opt<T>(None, Some(T)) : Show {\n  method show(): Str = match this { None -> \"none\", Some(_) -> \"some\" }\n  method orElse(d: T): T = match this { None -> d, Some(t) -> t }\n}\nclass Counter(val step: int) : Show {\n  method show(): Str = \"counter\" :: Str.fromInt(this.step)\n  method count(i: int, acc: int): int = if i <= 0 { acc } else { this.count(i - 1, acc + this.step) }\n  method sumTo(other: Counter, i: int): int = if i <= 0 { this.step } else { other.sumTo(this, i - 1) }\n}\nclass Holder<T: Show>(val t: T) {\n  method describe(): Str = \"holder of \" :: this.t.show()\n  method <U: Show> both(u: U): Str = this.t.show() :: \"+\" :: u.show()\n}\nclass Holds(val g: Grid, val k: int) {}\nclass Grid(val rows: int, val cols: int) {\n  method inside(r: int): bool = r >= 0 && this.rows > r\n  method count(f: (int) -> bool, r: int): int = if f(r) { 1 } else { 0 }\n  method viaThis(r: int): int = this.count((x) -> this.inside(x), r)\n  method viaThisAndLocal(r: int): int = { let shift = this.cols; this.count((x) -> this.inside(x - shift + this.cols), r) }\n  method viaNested(r: int): int = { let f = (a: int) -> (b: int) -> this.inside(a + b); this.count(f(0), r) }\n  method stored(r: int): int = { let h = Holds.init(this, r); if h.g.inside(h.k) { 1 } else { 0 } }\n}\nclass Drive {\n  function steps(g: Grid, r: int, n: int, mode: int): int =\n    if n <= 0 { 0 } else {\n      let here = if mode == 0 { g.viaThis(r) } else if mode == 1 { g.viaThisAndLocal(r) } else if mode == 2 { g.viaNested(r) } else { g.stored(r) };\n      here + Drive.steps(g, r + 1, n - 1, mode) + Drive.steps(g, r + 2, n - 2, mode)\n    }\n}\nclass Util {\n  function <T: Show> describe(t: T): Str = \"it is \" :: t.show()\n  function <A: Show, B: Show> two(a: A, b: B): Str = a.show() :: \"&\" :: b.show()\n  function apply0(f: () -> int): int = f()\n  function apply2(f: (int, int) -> int): int = f(5, 0)\n}\n";
-  let cases: [(&str, &str); 28] = [
+  let prelude = "interface Show { method show(): Str }\nclass Box<T>(val v: T) : Show {\n  method get(): T = this.v\n  method show(): Str = \"box\"\n  method <R> pair(r: R): Pair2<T, R> = Pair2.init(this.v, r)\n  method count(i: int, acc: int): int = if i <= 0 { acc } else { this.count(i - 1, acc + 1) }\n  method <A> fold(start: A, f: (A, T) -> A): A = f(start, this.v)\n}\nclass Cap {\n  function <A> sameName(b: Box<A>, f: (A) -> int): int = b.fold(0, (acc, v) -> acc + f(v))\n  function <Z> otherName(b: Box<Z>, f: (Z) -> int): int = b.fold(0, (acc, v) -> acc + f(v))\n}\nclass CapBox<A>(val inner: Box<A>) {\n  method viaClassParameter(f: (A) -> int): int = this.inner.fold(100, (acc, v) -> acc + f(v))\n}\nclass Pair2<A, B>(val a: A, val b: B) : Show {\n  method show(): Str = \"pair\"\n  method first(): A = this.a\n}\nclass Opt<T>(None, Some(T)) : Show {\n  method show(): Str = match this { None -> \"none\", Some(_) -> \"some\" }\n  method orElse(d: T): T = match this { None -> d, Some(t) -> t }\n}\nclass Counter(val step: int) : Show {\n  method show(): Str = \"counter\" :: Str.fromInt(this.step)\n  method count(i: int, acc: int): int = if i <= 0 { acc } else { this.count(i - 1, acc + this.step) }\n  method sumTo(other: Counter, i: int): int = if i <= 0 { this.step } else { other.sumTo(this, i - 1) }\n}\nclass Holder<T: Show>(val t: T) {\n  method describe(): Str = \"holder of \" :: this.t.show()\n  method <U: Show> both(u: U): Str = this.t.show() :: \"+\" :: u.show()\n}\nclass Pick(val n: int) {\n  method pick(x: int): Pick = if x == this.n { this } else { Pick.init(x) }\n  method me(k: int): Pick = { let _ = k; this }\n  method chain(k: int): Pick = if k <= 0 { this } else { this.pick(k).chain(k - 1).pick(k + this.n) }\n  method walk(k: int): Pick = if k <= 0 { this.me(k) } else { this.me(k).walk(k - 1).me(k).pick(k) }\n}\nclass Holds(val g: Grid, val k: int) {}\nclass Grid(val rows: int, val cols: int) {\n  method inside(r: int): bool = r >= 0 && this.rows > r\n  method count(f: (int) -> bool, r: int): int = if f(r) { 1 } else { 0 }\n  method viaThis(r: int): int = this.count((x) -> this.inside(x), r)\n  method viaThisAndLocal(r: int): int = { let shift = this.cols; this.count((x) -> this.inside(x - shift + this.cols), r) }\n  method viaNested(r: int): int = { let f = (a: int) -> (b: int) -> this.inside(a + b); this.count(f(0), r) }\n  method stored(r: int): int = { let h = Holds.init(this, r); if h.g.inside(h.k) { 1 } else { 0 } }\n}\nclass Drive {\n  function steps(g: Grid, r: int, n: int, mode: int): int =\n    if n <= 0 { 0 } else {\n      let here = if mode == 0 { g.viaThis(r) } else if mode == 1 { g.viaThisAndLocal(r) } else if mode == 2 { g.viaNested(r) } else { g.stored(r) };\n      here + Drive.steps(g, r + 1, n - 1, mode) + Drive.steps(g, r + 2, n - 2, mode)\n    }\n}\nclass Util {\n  function <T: Show> describe(t: T): Str = \"it is \" :: t.show()\n  function <A: Show, B: Show> two(a: A, b: B): Str = a.show() :: \"&\" :: b.show()\n  function apply0(f: () -> int): int = f()\n  function apply2(f: (int, int) -> int): int = f(5, 0)\n}\n";
+  let cases: [(&str, &str); 30] = [
     ("method of a generic struct class as a value", "let f = Box.init(41).get; Process.println(Str.fromInt(f() + 1));"),
     ("method of a generic struct class at Str as a value", "let f = Box.init(\"s\").get; Process.println(f());"),
     ("method of a generic class passed to a function", "Process.println(Str.fromInt(Util.apply0(Box.init(7).get)));"),
@@ -1751,6 +1751,8 @@ pub fn method_value_family() -> Vec<Prog> {
     ("lambda capturing this and a local in a method that is not inlined", "Process.println(Str.fromInt(Drive.steps(Grid.init(2, 5), 1, 4, 1)));"),
     ("nested lambda capturing this in a method that is not inlined", "Process.println(Str.fromInt(Drive.steps(Grid.init(4, 2), 0, 3, 2)));"),
     ("this stored in a struct by a method that is not inlined", "Process.println(Str.fromInt(Drive.steps(Grid.init(4, 4), 0, 3, 3)));"),
+    ("this as the value of a branch in a method that is not inlined", "Process.println(Str.fromInt(Pick.init(2).chain(\"3\".toInt()).n));"),
+    ("this returned from a method that is not inlined", "Process.println(Str.fromInt(Pick.init(2).walk(\"4\".toInt()).n));"),
   ];
   cases
     .iter()
